@@ -189,7 +189,13 @@ theorem unlock_on_exit (P : Params) (s s' : St) (st : step P s .rlExit = some s'
 /-- **refresh_no_gap**: proved on the protocol model of C12 (refresh = create the replacement, then
     remove the old file; T1 fact `C12.t1_refresh_create_before_remove`): a holder — also in the middle
     of a refresh — always has a lock file of its own in the repository, and that file is fresh. -/
-theorem refresh_no_gap := @Restic.Props.C12.holder_has_fresh_file
+theorem refresh_no_gap (P : Restic.Model.Lock.Params) (ht : Restic.Props.C12.timingOK P) (now : Nat)
+    (excls : List Bool) (acts : List Restic.Model.Lock.Act) (s : Restic.Model.Lock.Sys)
+    (h : Restic.Model.Lock.run P (Restic.Model.Lock.init now excls) acts = some s)
+    (p : Restic.Model.Lock.Proc) (hp : p ∈ s.procs) (hh : Restic.Model.Lock.holds p = true) :
+    ∃ b, Restic.Props.C12.lockFile p = some b ∧ Restic.Model.Lock.filePresent p = true ∧
+      Restic.Model.Lock.canJudgeStale P s.now b = false :=
+  Restic.Props.C12.holder_has_fresh_file P ht now excls acts s h p hp hh
 
 /-! ### Negation witness for the select as it is in restic 0.18 (`fixed = false`)
 
